@@ -10,35 +10,35 @@ EXTENDS DictableXOps, Batch
 
 St0 == [heap |-> <<>>, reg |-> [r \in Regs |-> 0]]
 TT(st, r) == st.heap[st.reg[r]]
-OutOf(res) == IF res.ok THEN OutOk ELSE OutExc(res.err)
-DoAlloc(st, rd, res) == IF res.ok THEN [heap |-> Append(st.heap, res.t), reg |-> [st.reg EXCEPT ![rd] = Len(st.heap) + 1], out |-> OutOk]
-                        ELSE [heap |-> st.heap, reg |-> st.reg, out |-> OutExc(res.err)]
+XOutOf(res) == IF res.ok THEN XOutOk ELSE XOutExc(res.err)
+DoAlloc(st, rd, res) == IF res.ok THEN [heap |-> Append(st.heap, res.t), reg |-> [st.reg EXCEPT ![rd] = Len(st.heap) + 1], out |-> XOutOk]
+                        ELSE [heap |-> st.heap, reg |-> st.reg, out |-> XOutExc(res.err)]
 \* rejected in-place calls of C01 leave the target alone; UpdateT hands back the partially updated target
-DoInPlace(st, r, res, partial) == [heap |-> [st.heap EXCEPT ![st.reg[r]] = IF res.ok \/ partial THEN res.t ELSE @], reg |-> st.reg, out |-> OutOf(res)]
-DoRead(st, q) == [heap |-> st.heap, reg |-> st.reg, out |-> IF q.ok THEN OutVal(q.v) ELSE OutExc(q.err)]
+DoInPlace(st, r, res, partial) == [heap |-> [st.heap EXCEPT ![st.reg[r]] = IF res.ok \/ partial THEN res.t ELSE @], reg |-> st.reg, out |-> XOutOf(res)]
+DoRead(st, q) == [heap |-> st.heap, reg |-> st.reg, out |-> IF q.ok THEN XOutVal(q.v) ELSE XOutExc(q.err)]
 DoIfNone(st, e) ==
-    LET res == IfNoneT(TT(st, e.r), e.none, e.kws)
+    LET res == XIfNoneT(TT(st, e.r), e.none, e.kws)
         h1  == [st.heap EXCEPT ![st.reg[e.r]] = res.self] IN
-    IF res.err # "ok" THEN [heap |-> h1, reg |-> st.reg, out |-> OutExc(res.err)]
-    ELSE IF res.alias THEN [heap |-> h1, reg |-> [st.reg EXCEPT ![e.rd] = st.reg[e.r]], out |-> OutOk]
-    ELSE [heap |-> Append(h1, res.res), reg |-> [st.reg EXCEPT ![e.rd] = Len(st.heap) + 1], out |-> OutOk]
+    IF res.err # "ok" THEN [heap |-> h1, reg |-> st.reg, out |-> XOutExc(res.err)]
+    ELSE IF res.alias THEN [heap |-> h1, reg |-> [st.reg EXCEPT ![e.rd] = st.reg[e.r]], out |-> XOutOk]
+    ELSE [heap |-> Append(h1, res.res), reg |-> [st.reg EXCEPT ![e.rd] = Len(st.heap) + 1], out |-> XOutOk]
 Apply(st, e) ==
     CASE e.op = "NewX"       -> DoAlloc(st, e.rd, XConstruct(e.seed))
-      [] e.op = "Extend"     -> DoAlloc(st, e.rd, ExtendT(TT(st, e.r), e.extra))
-      [] e.op = "Get"        -> DoRead(st, GetT(TT(st, e.r), e.c, e.dflt))
-      [] e.op = "GetAttr"    -> DoRead(st, GetAttrT(TT(st, e.r), e.c, e.dflt))
-      [] e.op = "TupleGet"   -> DoRead(st, TupleGetT(TT(st, e.r), e.items))
-      [] e.op = "Apply"      -> DoRead(st, ApplyT(TT(st, e.r), e.fn, e.defs))
-      [] e.op = "IfElse"     -> DoRead(st, IfElseT(TT(st, e.r), e.cond, e.a, e.b, e.defs))
-      [] e.op = "Repr"       -> DoRead(st, ReprT(TT(st, e.r)))
-      [] e.op = "DictConcat" -> DoRead(st, QOk(DictConcatV(e.recs)))
-      [] e.op = "DictConcatRows" -> DoRead(st, QOk(DictConcatRowsV(TT(st, e.r))))
-      [] e.op = "Call"       -> DoAlloc(st, e.rd, CallT(TT(st, e.r), e.kws))
-      [] e.op = "DoX"        -> DoAlloc(st, e.rd, DoXT(TT(st, e.r), e.fs, e.cs, e.star))
-      [] e.op = "Relabel"    -> DoAlloc(st, e.rd, RelabelT(TT(st, e.r), e.form))
-      [] e.op = "Unpivot"    -> DoAlloc(st, e.rd, UnpivotT(TT(st, e.r), e.xs, e.y, e.z, e.ysel))
+      [] e.op = "Extend"     -> DoAlloc(st, e.rd, XExtendT(TT(st, e.r), e.extra))
+      [] e.op = "Get"        -> DoRead(st, XGetT(TT(st, e.r), e.c, e.dflt))
+      [] e.op = "GetAttr"    -> DoRead(st, XGetAttrT(TT(st, e.r), e.c, e.dflt))
+      [] e.op = "TupleGet"   -> DoRead(st, XTupleGetT(TT(st, e.r), e.items))
+      [] e.op = "Apply"      -> DoRead(st, XApplyT(TT(st, e.r), e.fn, e.defs))
+      [] e.op = "IfElse"     -> DoRead(st, XIfElseT(TT(st, e.r), e.cond, e.a, e.b, e.defs))
+      [] e.op = "Repr"       -> DoRead(st, XReprT(TT(st, e.r)))
+      [] e.op = "DictConcat" -> DoRead(st, XQOk(XDictConcatV(e.recs)))
+      [] e.op = "DictConcatRows" -> DoRead(st, XQOk(XDictConcatRowsV(TT(st, e.r))))
+      [] e.op = "Call"       -> DoAlloc(st, e.rd, XCallT(TT(st, e.r), e.kws))
+      [] e.op = "DoX"        -> DoAlloc(st, e.rd, XDoXT(TT(st, e.r), e.fs, e.cs, e.star))
+      [] e.op = "Relabel"    -> DoAlloc(st, e.rd, XRelabelT(TT(st, e.r), e.form))
+      [] e.op = "Unpivot"    -> DoAlloc(st, e.rd, XUnpivotT(TT(st, e.r), e.xs, e.y, e.z, e.ysel))
       [] e.op = "Xyz"        -> DoAlloc(st, e.rd, XyzT(TT(st, e.r), e.xs, e.y, e.z, e.agg))
-      [] e.op = "UpdateFrom" -> DoInPlace(st, e.r, UpdateFromT(TT(st, e.r), TT(st, e.r2)), TRUE)
+      [] e.op = "UpdateFrom" -> DoInPlace(st, e.r, XUpdateFromT(TT(st, e.r), TT(st, e.r2)), TRUE)
       [] e.op = "IfNone"     -> DoIfNone(st, e)
       [] e.op = "SetCol"     -> DoInPlace(st, e.r, SetColT(TT(st, e.r), e.c, e.arg), FALSE)
       [] e.op = "DelCol"     -> DoInPlace(st, e.r, DelColT(TT(st, e.r), e.c), FALSE)
@@ -48,7 +48,7 @@ Apply(st, e) ==
 \* the law, and the recorded call must be inside the domain of the operator (a SPEC verdict is a failure of the
 \* machinery, never a violation)
 SpecVerdict(st, e) ==
-    IF e.op = "Call" /\ CallT(TT(st, e.r), e.kws) \notin CallLaw(TT(st, e.r), e.kws) THEN "SPEC_call_mechanism_vs_law"
+    IF e.op = "Call" /\ XCallT(TT(st, e.r), e.kws) \notin XCallLaw(TT(st, e.r), e.kws) THEN "SPEC_call_mechanism_vs_law"
     ELSE IF e.op = "Xyz" /\ ~XyzDomain(TT(st, e.r), e.xs, e.y) THEN "SPEC_xyz_outside_domain"
     ELSE IF e.op = "DoX" /\ ~(Range(e.cs) \subseteq ColSet(TT(st, e.r))) THEN "SPEC_do_outside_domain"
     ELSE ""
